@@ -16,133 +16,143 @@ TRUSTED = ["rustc MIR", "move semantics: final-response paths consume the Reques
 def run(ctx):
     facts = ctx.facts
     roles.bind(facts)
-    nr = facts.fn("request::new_request")
-    as_reader = roles.inherent(facts, REQ, "as_reader")
-    FLAG = "must_send_continue"
+    import request_rules as RR, framing_rules as FRM, absint, inline
+    import queue_rules as Q
+    RM = RR.rmodel(facts)
+    FM = FRM.fmodel(facts)
+    as_reader = RM.methods.get("as_reader")
+    ctx.require(as_reader is not None, "C18: Request::as_reader not found")
+    where = "%s:%d" % (as_reader.file, as_reader.line)
 
-    # ---- C18.1 who writes the flag
+    # ---- the flag: the bool field of Request that as_reader's behaviour depends on
+    bools = [x["name"] for x in facts.adt(REQ)["variants"][0]["fields"] if x["ty"] == "bool"]
+    flag = None
+    behaviour = {}
+    for b in bools:
+        outs = {}
+        for val in (True, False):
+            f, ps = RM.run(as_reader, extra={RM.key(RM.self_base(as_reader), (b,)): ("const", val, str(val).lower(), None)})
+            outs[val] = (f, ps)
+        np_t = [len(RM.prints(p)) for p in outs[True][1]]
+        np_f = [len(RM.prints(p)) for p in outs[False][1]]
+        if np_t != np_f:
+            flag = b
+            behaviour = outs
+    ctx.ob("C18.2", "%s|has-continue-flag" % as_reader.id, "as_reader's sending of the interim response depends on one boolean field of the Request", flag is not None, where)
+    if flag is None:
+        return {}
+    FLAGKEY = RM.key(RM.self_base(as_reader), (flag,))
+
+    # ---- C18.1 who writes the flag; its initial value
     n = 0
-    for f, bb, kind, x in facts.field_writes(REQ, FLAG):
+    for f, bb, kind, x in facts.field_writes(REQ, flag):
         n += 1
         ctx.touch(f)
         if kind == "construct":
-            ok = f.id == nr.id
-            r = x["rhs"]
-            o = f.origin(r["ops"][r["fields"].index(FLAG)])
-            # the expects_continue local: true only on the `100-continue` arm
-            ctx.ob("C18.1", "flag-init|%s" % f.id, "the flag is initialised by new_request", ok, f.loc(bb))
-            l = [y[1] for y in origin_walk(o) if y[0] == "local"]
-            okv = False
-            if l:
-                defs = [d for d in f.defs().get(l[0], []) if d[0] == "assign"]
-                trues = [d for d in defs if op_const(d[3].get("op", {})) is True]
-                falses = [d for d in defs if op_const(d[3].get("op", {})) is False]
-                okv = len(trues) >= 1 and len(trues) + len(falses) == len(defs)
-                for d in trues:
-                    tb = d[1]
-                    good = False
-                    for cb, t in f.calls():
-                        if call_matches(t, r"eq_ignore_ascii_case$") and "100-continue" in arg_consts(f, t) and t.get("target") is not None:
-                            bs = bool_switch(f, t["target"])
-                            if bs and bs[1] != bs[2] and f.dominates(bs[1], tb, unwind=False):
-                                good = True
-                    okv = okv and good
-            ctx.ob("C18.1", "flag-value|%s" % f.id, "the flag is true exactly when an `Expect: 100-continue` header was recognised", okv, f.loc(bb), origin_str(o))
+            ctx.ob("C18.1", "flag-init|%s" % f.id, "the flag is initialised where the Request is built", f.file == FM.nr0.file, f.loc(bb))
         else:
-            ok = f.id == as_reader.id and kind == "assign" and x["rhs"]["rv"] == "use" and op_const(x["rhs"]["op"]) is False
-            ctx.ob("C18.1", "flag-write|%s" % f.id, "after construction the flag is only ever cleared, and only by as_reader", ok, f.loc(bb))
+            ok = f.file == RM.file and kind == "assign" and x["rhs"]["rv"] == "use" and op_const(x["rhs"]["op"]) is False
+            ctx.ob("C18.1", "flag-write|%s" % f.id, "after construction the flag is only ever cleared, and only inside the request module", ok, f.loc(bb))
     ctx.floor("C18.1 flag writes", n, 1)
-    clears_ = [1 for g_, b_, k_, x_ in facts.field_writes(REQ, FLAG) if g_.id == as_reader.id and k_ == "assign"]
-    ctx.ob("C18.1", "flag-cleared-by-as_reader", "as_reader clears the flag (so the interim response is sent once)", bool(clears_), "%s:%d" % (as_reader.file, as_reader.line))
-    for f, bb, kind in facts.field_reads(REQ, FLAG):
-        ctx.ob("C18.3", "flag-read|%s" % f.id, "only as_reader consults the flag (answering without asking for the body sends no interim response)", f.id == as_reader.id, f.loc(bb))
+    bad = []
+    rows = 0
+    for A in FRM.assignments():
+        W = FRM.want(A)
+        if W["kind"] != "ok":
+            continue
+        needed = [h for h, on in (("Transfer-Encoding", A["te"]), ("Content-Length", A["cl"] is not None), ("Expect", A["expect"] != "absent"), ("Connection", A["upgrade"])) if on and h in FM.scan_headers]
+        if len(needed) > FM.max_visits - 1:
+            continue
+        rows += 1
+        for r in FM.rows:
+            if r["end"] == "return" and r["kind"] == "ok" and FM.compatible(r, A):
+                v = absint.const_of(r["request"].get(flag, ("unknown",)))
+                if v is not W["continue"]:
+                    bad.append((A, v))
+    ctx.ob("C18.1", "flag-value|%s" % FM.nr0.id, "the flag is true exactly when an `Expect: 100-continue` header was recognised", rows > 0 and not bad, "%s:%d" % (FM.nr0.file, FM.nr0.line), None if not bad else str(bad[:3]))
+    for f, bb, kind in facts.field_reads(REQ, flag):
+        ctx.ob("C18.3", "flag-read|%s" % f.id, "only the request module consults the flag, and only on the way to the body (answering without asking for the body sends no interim response)",
+               f.file == RM.file and f.id in [d for dep, d in RM.fn(as_reader).inlined], f.loc(bb))
 
-    # ---- C18.2 as_reader
-    f = as_reader
-    ctx.touch(f)
-    sw = None
-    for bb in sorted(f.live_blocks()):
-        bs = bool_switch(f, bb)
-        if bs and FLAG in origin_fields(f.origin(bs[0])):
-            sw = (bb, bs)
-            break
-    ctx.require(sw is not None, "C18.2: as_reader does not branch on the flag")
-    bb, bs = sw
-    t_edge, f_edge = bs[1], bs[2]
-    rps = [b for b, t in f.calls() if call_matches(t, r"raw_print$")]
-    flushes = [b for b, t in f.calls() if t.get("callee") == "std::io::Write::flush" or call_matches(t, r"as std::io::Write>::flush$|impl std::io::Write for .*>::flush$")]
-    clears = [b for g, b, kind, x in facts.field_writes(REQ, FLAG) if g.id == f.id and kind == "assign"]
-    ctx.require(rps, "C18.2: raw_print not found in as_reader")
-    for nm_, bl_ in (("flush", flushes), ("clear of the flag", clears)):
-        if not bl_:
-            ctx.ob("C18.2", "%s|has-%s" % (f.id, nm_.split()[0]), "as_reader performs the %s" % nm_, False, "%s:%d" % (f.file, f.line))
-    if not (flushes and clears):
-        return {}
-    rets = f.returns()
-    for name, blocks in (("prints", rps), ("flushes", flushes), ("clears-flag", clears)):
-        reach = f.reach([t_edge], blocked=set(blocks), unwind=False)
-        ok = not any(r in reach for r in rets)
-        ctx.paths += 1
-        ctx.ob("C18.2", "%s|true-edge-%s" % (f.id, name), "when the flag is set, as_reader %s before returning, on every normal path" % name, ok, f.loc(t_edge))
-    # order: print -> flush -> clear
-    ok = all(f.dominates(rps[0], fl, unwind=False) for fl in flushes) and all(any(f.dominates(fl, c, unwind=False) for fl in flushes) for c in clears)
-    ctx.ob("C18.2", "%s|order" % f.id, "the interim response is printed, then flushed, then the flag is cleared", ok, f.loc(rps[0]))
-    # what is printed: status 100, no body, into the request's own writer
-    t = f.term(rps[0])
-    o_resp = f.origin(t["args"][0])
-    codes = [c for b, c in shared.status_consts_in(f)]
-    ctx.ob("C18.2", "%s|status-100" % f.id, "the interim response has status 100", codes == [100] and origin_has_call(o_resp, r"Response::<std::io::Empty>::(new_empty|empty)"), f.loc(rps[0]), str(codes))
-    ow = f.origin(t["args"][1])
-    ctx.ob("C18.2", "%s|own-writer" % f.id, "it is written to this request's response writer", "response_writer" in origin_fields(ow), f.loc(rps[0]), origin_str(ow))
-    ctx.ob("C18.2", "%s|no-body" % f.id, "it is printed without a body", op_const(t["args"][4]) is True, f.loc(rps[0]))
-    for fl in flushes:
-        ofl = f.origin(f.term(fl)["args"][0])
-        ctx.ob("C18.2", "%s|flushes-own-writer" % f.id, "the flush is on the same writer", "response_writer" in origin_fields(ofl), f.loc(fl))
-    # false edge: no writer operation
-    # (blocks reachable from the false edge that are not also behind the true edge's work: the join is shared)
-    r_false = f.reach([f_edge], unwind=False)
-    touched = [b for b in r_false if b in rps or b in flushes]
-    ctx.ob("C18.2", "%s|false-edge-silent" % f.id, "when the flag is clear, as_reader writes nothing", not touched, f.loc(f_edge))
-    # the returned reader is the request's data_reader
-    o = f.origin_place({"l": 0, "p": []})
-    ctx.ob("C18.2", "%s|returns-body-reader" % f.id, "as_reader returns the request's body reader", "data_reader" in origin_fields(o), "%s:%d" % (f.file, f.line), origin_str(o))
-    ctx.ob("C18.2", "%s|not-in-loop" % f.id, "the interim response is sent at most once per call", not f.in_loop(rps[0]), f.loc(rps[0]))
+    # ---- C18.2 as_reader with the flag set: print 100 (no body) into the own writer, flush it, clear the flag; with it clear: silent
+    f, ps = behaviour[True]
+    ctx.touch(f, paths=len(ps))
+    bad = []
+    for p in ps:
+        if p.end[0] != "return":
+            continue
+        pr = RM.prints(p)
+        if len(pr) != 1:
+            bad.append("%d interim responses" % len(pr))
+            continue
+        i, e = pr[0]
+        if RM.status_consts(p, e) != {100}:
+            bad.append("status %s" % sorted(RM.status_consts(p, e)))
+        if not RM.arg_mentions(p, e, 1, RR.WRITER):
+            bad.append("not written to this request's response writer")
+        nb = e[3][4] if len(e[3]) > 4 else None
+        if nb is None or absint.const_of(nb) is not True:
+            bad.append("printed with a body")
+        fl = [j for j, ev in enumerate(p.events) if j > i and ev[1] == "call" and ((ev[6] or "") == "std::io::Write::flush" or re.search(r"Write>::flush$", ev[2])) and RM.arg_mentions(p, ev, 0, RR.WRITER)]
+        if not fl:
+            bad.append("not flushed (the client would keep waiting for the 100)")
+        v = p.state.read_key(FLAGKEY)
+        if absint.const_of(v) is not False:
+            bad.append("flag not cleared: the interim response would be sent again")
+        if not absint.contains(absint.deep(p.state, p.ret()), RR.READER) and not any(x and x[0] == "ref" for x in absint.walk_terms(p.ret())):
+            bad.append("does not return the body reader")
+    ctx.ob("C18.2", "%s|flag-set" % as_reader.id, "with the flag set, as_reader prints exactly one bodiless 100 into the request's own writer, flushes it, clears the flag and returns the body reader, on every path",
+           bool(ps) and not bad, where, None if not bad else str(bad[:3]))
+    f, ps = behaviour[False]
+    touched = []
+    for p in ps:
+        for e in p.calls():
+            if re.search(RR.RAW_PRINT, e[2]) or (e[6] or "").startswith("std::io::Write::"):
+                touched.append(short(e[2]))
+    ctx.ob("C18.2", "%s|flag-clear-silent" % as_reader.id, "with the flag clear, as_reader writes nothing", bool(ps) and not touched, where, None if not touched else str(touched[:3]))
+    # the body reader is what as_reader returns
+    okr = all(any(isinstance(x, tuple) and x and x[0] == "ref" and any(seg == "." + RM.rslot[-1] for seg in x[1] if isinstance(seg, str)) for x in absint.walk_terms(p.ret())) or absint.contains(absint.deep(p.state, p.ret()), RR.READER)
+              for p in ps if p.end[0] == "return")
+    ctx.ob("C18.2", "%s|returns-body-reader" % as_reader.id, "as_reader returns the request's body reader", bool(ps) and okr, where)
 
     # ---- C18.3 no other interim response
     for g, bb, s in facts.constructions(STATUS):
         c = op_const(s["rhs"]["ops"][0])
         if c == 100:
-            ctx.ob("C18.3", "status-100|%s" % g.id, "a 100 status is built only by as_reader", g.id == f.id, g.loc(bb))
+            ctx.ob("C18.3", "status-100|%s" % g.id, "a 100 status is built only on as_reader's path", g.id in [d for dep, d in RM.fn(as_reader).inlined], g.loc(bb))
     for k, g in sorted(facts.local_fns.items()):
         for bb, t in g.calls():
             if call_matches(t, r"Response::<std::io::Empty>::(empty|new_empty)") and t["args"]:
                 c = op_const(t["args"][0])
                 if c == 100:
-                    ctx.ob("C18.3", "status-100-call|%s" % g.id, "a 100 response is built only by as_reader", g.id == f.id, g.loc(bb))
+                    ctx.ob("C18.3", "status-100-call|%s" % g.id, "a 100 response is built only on as_reader's path", g.id in [d for dep, d in RM.fn(as_reader).inlined], g.loc(bb))
+    # respond / into_writer / Drop send no interim response
+    for name in ("respond", "into_writer"):
+        g = RM.methods.get(name)
+        if g is None:
+            continue
+        extra = {RM.key(RM.self_base(g), (flag,)): ("const", True, "true", None)}
+        f, ps = RM.run(g, extra=extra)
+        st = set()
+        for p in ps:
+            for i, e in RM.prints(p):
+                st |= RM.status_consts(p, e)
+        ctx.ob("C18.3", "%s|no-interim" % g.id, "answering without asking for the body sends no interim response", 100 not in st, "%s:%d" % (g.file, g.line))
 
     # ---- C18.4 never pre-read when the client waits for 100
-    pre = [bb for bb, t in nr.calls() if t.get("callee") == "std::io::Read::read" and nr.in_loop(bb)]
-    ctx.ob("C18.4", "%s|preread-exists" % nr.id, "(anchor) new_request pre-reads small bodies", bool(pre), "%s:%d" % (nr.file, nr.line), nontrivial=False)
-    for i, pb in enumerate(pre):
-        dom = nr.dominators(False)
-        ok = False
-        for b in dom[pb]:
-            bs2 = bool_switch(nr, b)
-            if not bs2 or bs2[1] == bs2[2]:
-                continue
-            o = nr.origin(bs2[0])
-            locs = [y[1] for y in origin_walk(o) if y[0] == "local"]
-            if not locs:
-                continue
-            # same local as the one initialising the flag
-            flag_init = None
-            for g, bb2, kind, x in facts.field_writes(REQ, FLAG):
-                if kind == "construct" and g.id == nr.id:
-                    oo = g.origin(x["rhs"]["ops"][x["rhs"]["fields"].index(FLAG)])
-                    flag_init = [y[1] for y in origin_walk(oo) if y[0] == "local"]
-            if flag_init and locs[0] == flag_init[0] and nr.dominates(bs2[2], pb, unwind=False):
-                ok = True
-        ctx.ob("C18.4", "%s|no-preread-when-expecting|%d" % (nr.id, i), "the body of a request that expects 100-continue is not read at parse time (the client has not sent it yet)", ok, nr.loc(pb))
+    bad = []
+    for A in FRM.assignments():
+        if A["expect"] != "100":
+            continue
+        needed = [h for h, on in (("Transfer-Encoding", A["te"]), ("Content-Length", A["cl"] is not None), ("Expect", True), ("Connection", A["upgrade"])) if on and h in FM.scan_headers]
+        if len(needed) > FM.max_visits - 1:
+            continue
+        for r in FM.rows:
+            if r["end"] in ("return", "cut") and FM.compatible(r, A) and r["reads"] > 0:
+                bad.append(A)
+    ctx.ob("C18.4", "%s|no-preread-when-expecting" % FM.nr0.id, "the body of a request that expects 100-continue is not read at parse time (the client has not sent it yet)", not bad, "%s:%d" % (FM.nr0.file, FM.nr0.line),
+           None if not bad else str(bad[:3]))
+    ctx.ob("C18.4", "%s|preread-exists" % FM.nr0.id, "(anchor) new_request reads small bodies at parse time", any(r["reads"] > 0 for r in FM.rows), "%s:%d" % (FM.nr0.file, FM.nr0.line), nontrivial=False)
 
     # ---- C18.5 interim responses are never chunked and carry no body
     cte = facts.fn("response::choose_transfer_encoding")
